@@ -2,11 +2,12 @@
 
 case = {"cls": "Node"|"BaseNode", "tree": nested list of children lists, "par": [sibling_separation,
 subtree_separation, level_separation, x_offset, y_offset] (Python floats), "stratum": label,
-optional "steps": [{"edit": None | ["rev", path] | ["add", path, i], "par": [...]}, ...]}.
+optional "steps": [{"edit": None | ["rev", path] | ["add", path, i] | ["del", path, i], "par": [...]}, ...]}.
 A fresh tree is built for every case and laid out with "par"; every step then (optionally changes
-the structure and) calls reingold_tilford again on the SAME tree object (the stale `shift`
-attributes of the earlier call are read back, exactly as modelled by Algo/Plot.v `run_steps`);
-the observation is the coordinates after the last call.  The floats the implementation wrote are handed to Coq as
+the structure and) calls reingold_tilford again on the SAME tree object (Algo/Plot.v `run_steps`:
+_first_pass reads `shift` back from the nodes, reingold_tilford resets it first since F10, so every
+call must give the fresh layout of the current shape); the observation is the coordinates after the
+last call.  The floats the implementation wrote are handed to Coq as
 exact rationals (float.as_integer_ratio()) and compared with the exact-rational model up to 1e-9.
 """
 import itertools
@@ -78,6 +79,8 @@ def run_impl(prop, case):
             elif ed[0] == "add":
                 counter[0] += 1
                 ch.insert(ed[2], Node("n%d" % counter[0]) if case["cls"] == "Node" else BaseNode())
+            elif ed[0] == "del":
+                ch.pop(ed[2])
             else:
                 raise ValueError(ed[0])
             nd.children = ch
@@ -122,6 +125,8 @@ def _cedit(ed):
         return f"ERev {_cpath(ed[1])}"
     if ed[0] == "add":
         return f"EAdd {_cpath(ed[1])} {int(ed[2])}%nat"
+    if ed[0] == "del":
+        return f"EDel {_cpath(ed[1])} {int(ed[2])}%nat"
     raise ValueError(ed[0])
 
 
@@ -195,22 +200,18 @@ def clauses(case, obs):
 
 
 def matches_finding(prop, entry, case, obs, flags):
-    """K1-C19: no structural change between the calls; the case fails *only* the cousin-separation clause,
-    and the implementation's coordinates are the modelled ones (Coq: no disagreement, flags == F_PROPFAIL).
-    K4-C19 (proposed): the tree was changed (child inserted / children reordered) between two calls; only
-    the sibling-separation and/or cousin-separation clauses fail; coordinates are the modelled ones."""
-    if flags != 2 or not isinstance(obs, dict) or "out" not in obs:
+    """K1-C19: the case fails *only* the cousin-separation clause (of the last layout), and the
+    implementation's coordinates are the modelled ones (Coq reported no disagreement: flags == F_PROPFAIL).
+    Earlier layouts / structural changes do not matter: layouts are history-free since F10."""
+    if entry.get("id") != "K1-C19" or flags != 2:
+        return False
+    if not isinstance(obs, dict) or "out" not in obs:
         return False
     try:
         cl = clauses(case, obs)
     except Exception:
         return False
-    bad = {k for k, v in cl.items() if not v}
-    if entry.get("id") == "K1-C19":
-        return (not has_edit(case)) and bad == {"cousins"}
-    if entry.get("id") == "K4-C19":
-        return has_edit(case) and bool(bad) and bad <= {"siblings", "cousins"}
-    return False
+    return (not cl["cousins"]) and all(v for k, v in cl.items() if k != "cousins")
 
 
 # ---------------------------------------------------------------------------------------------
@@ -266,27 +267,19 @@ def corpus(prop):
         ("rerun-leaf-below", {"cls": "Node", "tree": [[[], []], [[], []]], "par": u,
                               "steps": [{"edit": ["add", [0], 1], "par": u}], "stratum": "corpus"}),
     ]
-    if _k4_registered():
-        # proposed finding K4-C19: a leaf appended next to a sibling that carries a stale shift
-        out.append(("K4-witness", {"cls": "Node", "tree": K4_TREE, "par": u,
-                                   "steps": [{"edit": ["add", [], 2], "par": u}], "stratum": "corpus"}))
+    out += [
+        # regression for F10 (stale `shift` read back): a leaf appended next to a sibling that was shifted
+        ("F10-append-leaf", {"cls": "Node", "tree": K4_TREE, "par": u,
+                             "steps": [{"edit": ["add", [], 2], "par": u}], "stratum": "corpus"}),
+        ("F10-append-leaf-coincide", {"cls": "Node", "tree": [[[], []], [[], []]], "par": u,
+                                      "steps": [{"edit": ["add", [], 2], "par": u}], "stratum": "corpus"}),
+        ("rerun-leaf-removed", {"cls": "Node", "tree": [[[], [], []], [[], []], []], "par": u,
+                                "steps": [{"edit": ["del", [0], 2], "par": v}], "stratum": "corpus"}),
+    ]
     return out
 
 
 K4_TREE = [[[], []], [[]]]          # r(a(a1, a2), b(b1)); then r gets a new last child c and is laid out again
-
-
-def _k4_registered():
-    """the K4 witness violates the sibling clause on the unchanged library; it joins the corpus only once
-    known_findings.json carries an entry with id K4-C19 (until then it is reported, not checked)"""
-    import json
-    import os
-    path = os.path.join(os.path.dirname(os.path.dirname(os.path.dirname(os.path.abspath(__file__)))),
-                        "known_findings.json")
-    try:
-        return any(e.get("id") == "K4-C19" for e in json.load(open(path)).get("entries", []))
-    except Exception:
-        return False
 
 
 def _from_parents(kids, i=0):
@@ -510,13 +503,57 @@ def generate(prop, rng, tier):
         case = {"cls": "Node" if rng.random() < 0.8 else "BaseNode", "tree": t,
                 "par": gen_params(rng, pk), "stratum": f"{shape}/{pk}"}
         label = f"{shape}/{pk}"
-        if rng.random() < 0.22:
-            # the same tree object is laid out again (once or twice) with other parameters; no structural
-            # change in generated cases (see K4-C19)
-            case["steps"] = [{"edit": None, "par": gen_params(rng, rng.choice(pkinds))}
-                             for _ in range(rng.choice([1, 1, 2]))]
-            case["stratum"] = label = f"rerun:{shape}/{pk}"
+        if rng.random() < 0.3:
+            # the same tree object is laid out again (once or twice), with the same or other parameters, and
+            # in half of the cases after a structural change (leaf inserted / appended, children reversed,
+            # leaf removed)
+            cur = t
+            steps = []
+            edited = False
+            for _ in range(rng.choice([1, 1, 2])):
+                ed = None
+                if rng.random() < 0.5:
+                    ed, cur = gen_edit(rng, cur)
+                    edited = edited or ed is not None
+                par = list(case["par"]) if rng.random() < 0.3 else gen_params(rng, rng.choice(pkinds))
+                steps.append({"edit": ed, "par": par})
+            case["steps"] = steps
+            case["stratum"] = label = ("relayout-edited:" if edited else "rerun:") + f"{shape}/{pk}"
         yield label, case
+
+
+def _paths(t, p=()):
+    yield list(p), t
+    for i, k in enumerate(t):
+        yield from _paths(k, p + (i,))
+
+
+def _replace(t, path, new):
+    if not path:
+        return new
+    return t[:path[0]] + [_replace(t[path[0]], path[1:], new)] + t[path[0] + 1:]
+
+
+def gen_edit(rng, t):
+    """(edit, tree after the edit); None when the chosen kind is not applicable"""
+    kind = rng.choice(["add", "add", "append", "rev", "del"])
+    nodes = list(_paths(t))
+    if kind in ("add", "append"):
+        inner = [(p, k) for p, k in nodes if k]
+        p, k = rng.choice(inner) if inner and rng.random() < 0.8 else rng.choice(nodes)
+        i = len(k) if kind == "append" else rng.randint(0, len(k))
+        return ["add", p, i], _replace(t, p, k[:i] + [[]] + k[i:])
+    if kind == "rev":
+        cands = [(p, k) for p, k in nodes if len(k) >= 2]
+        if not cands:
+            return None, t
+        p, k = rng.choice(cands)
+        return ["rev", p], _replace(t, p, k[::-1])
+    cands = [(p, k, i) for p, k in nodes for i, c in enumerate(k) if not c]
+    if not cands:
+        return None, t
+    p, k, i = rng.choice(cands)
+    return ["del", p, i], _replace(t, p, k[:i] + k[i + 1:])
 
 
 # ---------------------------------------------------------------------------------------------
@@ -582,8 +619,9 @@ def rule(prop):
     return ("fresh Node/BaseNode trees (<= 24 nodes; strata wide / deep / mixed / binary / comb = 3-6 siblings with "
             "multi-level subtrees / zigzag = facing contours that continue below a sibling of the contour node, depth <= 7 / negwide = the smallest preliminary x is at a leaf that is not the left-most one / sandwich = 3-5 siblings, deep wide subtrees separated by shallow ones, also nested / path / star, plus every ordered tree with <= 6 nodes (quick) or <= 7 nodes x 6 "
             "parameter sets (thorough)) x positive separations (unit / dyadic / non-dyadic / mixed) and non-negative "
-            "offsets; about 22 % of the generated cases lay the same tree object out again once or twice with other parameters "
-            "(no structural change in between); non-trivial = >= 4 nodes, some fan-out >= 2 and depth >= 3; distinct by canonical JSON hash")
+            "offsets; about 30 % of the generated cases lay the same tree object out again once or twice (same or other "
+            "parameters), half of those after a structural change (leaf inserted / appended / removed, children "
+            "reversed); non-trivial = >= 4 nodes, some fan-out >= 2 and depth >= 3; distinct by canonical JSON hash")
 
 
 def sample(prop, case, obs):
@@ -623,6 +661,6 @@ def trusted_base(prop):
 
 
 def assumptions(prop):
-    return ["inputs are fresh trees or trees laid out before by reingold_tilford and structurally unchanged since "
-            "(a child inserted or children reordered between two layouts: proposed finding K4-C19, corpus only)",
+    return ["inputs are fresh trees or trees laid out before by reingold_tilford (possibly restructured since); node "
+            "attributes x / mod / shift / y are only ever written by reingold_tilford itself",
             "separations > 0, offsets >= 0 in generated cases; reingold_tilford is called on a root node"]
